@@ -358,7 +358,7 @@ def fi_signature(name, mode, k1, k2, n, info, ninit):
             hit = [k - ninit[t] for k in fails if ninit[t] <= k < ninit[t] + ninit[inner] and k < n]
             if hit and (mode == "from" or n <= ninit[t] + ninit[inner] + 8):
                 return "tj3Init-leak:%s:%s=%d:inner" % (INITNAME[inner], "at" if mode == "pair" else mode, max(hit))
-    return "leak:%s:%s=%s" % (name, mode, k1 if mode != "pair" else "%d,%d" % (k1, k2))
+    return "leak:%s" % name
 
 
 def fi_eval(ctx, fl, line, case, info, ninit):
@@ -439,7 +439,43 @@ def fi_run(exe, d, lines):
     return outs, crashes
 
 
-def exec_part_b(ctx, built):
+def init_model_tie(ctx, drv, fl, lines, outs):
+    """tj3Init model (model/TjInit.v, handler as found in the source) vs the init_* scenarios:
+    success, number of allocation calls and number of blocks left must agree"""
+    if not drv:
+        return
+    q, idx = [], []
+    for i, (case, o) in enumerate(zip(lines, outs)):
+        f = case.split()
+        if o is None or not f[1].startswith("init_"):
+            continue
+        spec = {"at": "at %s" % f[3], "from": "from %s" % f[3], "pair": "at %s %s" % (f[3], f[4]), "none": "none"}[f[2]]
+        q.append("tjinit %s %s" % (f[1][5], spec))
+        idx.append(i)
+    if not q:
+        return
+    # the configuration line of this flavour is needed for ALIGN_SIZE: representative values are enough here
+    rc, out, err = sh2([drv], input=("\n".join(q) + "\n").encode(), timeout=600)
+    ml = out.decode().split("\n")
+    bad = 0
+    for i, mo in zip(idx, ml):
+        m = RES.match(outs[i])
+        mm = re.match(r"tjinit ok=(\d) n=(\d+) live=(\d+) badfree=(\d+) hd=(\d)", mo)
+        if not m or not mm:
+            continue
+        ctx.cov["tjinit_handler_destroys"] = bool(int(mm.group(5)))
+        impl = (1 if int(m.group(5)) == 0 else 0, int(m.group(6)), int(m.group(7)), int(m.group(10)))
+        mod = tuple(int(mm.group(j)) for j in (1, 2, 3, 4))
+        if impl != mod:
+            bad += 1
+            if bad <= 3:
+                ctx.log("tj3Init model/impl disagree on", lines[i], "\n  model (ok,n,live,badfree):", mod, "\n  impl:", impl)
+                ctx.broken_tie("correspondence:tj3Init:" + fl, "tj3Init model and implementation differ on '%s': model=%s impl=%s" % (lines[i], mod, impl))
+        ctx.cov["traces_validated_against_impl"] += 1
+    ctx.cov["tjinit_model_disagreements"] = ctx.cov.get("tjinit_model_disagreements", 0) + bad
+
+
+def exec_part_b(ctx, built, drv=None):
     for fl, (exe, d) in built.items():
         su = fi_setup(ctx, exe, d, fl)
         if su is None:
@@ -461,12 +497,13 @@ def exec_part_b(ctx, built):
             case = lines[min(idx, len(lines) - 1)]
             f = case.split()
             ctx.violation("%s with allocation failure %s %s/%s CRASHED (%s build, rc=%d): %s" % (f[1], f[2], f[3], f[4], fl, rc, err[-500:]),
-                          {"fi": case, "flavour": fl, "stderr": err}, signature="fi-crash:%s:%s=%s" % (f[1], f[2], f[3]))
+                          {"fi": case, "flavour": fl, "stderr": err}, signature="fi-crash:%s" % f[1])
         for case, o in zip(lines, outs):
             if o is None:
                 continue
             key = fi_eval(ctx, fl, o, case, info, ninit)
             ctx.count("fi-%s:%s" % (case.split()[2], fl), 1, ("fi", key))
+        init_model_tie(ctx, drv, fl, lines, outs)
         ctx.cov.setdefault("fi_scenarios", len(counts))
         ctx.cov.setdefault("fi_allocations_per_scenario", counts)
 
@@ -571,7 +608,7 @@ def do_replay(ctx, drv):
             for idx, rc, err in crashes:
                 f = r["fi"].split()
                 ctx.violation("%s with allocation failure %s %s CRASHED (%s build, rc=%d): %s" % (f[1], f[2], f[3], fl, rc, err[-500:]),
-                              {"fi": r["fi"], "flavour": fl, "stderr": err}, signature="fi-crash:%s:%s=%s" % (f[1], f[2], f[3]))
+                              {"fi": r["fi"], "flavour": fl, "stderr": err}, signature="fi-crash:%s" % f[1])
             if outs[0]:
                 fi_eval(ctx, fl, outs[0], r["fi"], info, ninit)
                 ctx.log("replay:", outs[0])
@@ -585,7 +622,13 @@ def do_replay(ctx, drv):
 
 
 def run(ctx):
-    ctx.regen(["MemConst"])
+    if not ctx.regen(["MemConst"]):
+        # a stale .vo of the generated facts must not satisfy the proof obligations
+        for ext in (".vo", ".vos", ".vok", ".glob"):
+            try:
+                os.remove(os.path.join(core.COQ, "gen", "GenMemConst" + ext))
+            except OSError:
+                pass
     ctx.prove()
     drv = ctx.model_driver()
     if ctx.replay:
@@ -595,7 +638,7 @@ def run(ctx):
     exes, cases = part_a(ctx, drv, fla)
     exec_part_a(ctx, drv, exes, cases)
     built = part_b(ctx, flb)
-    exec_part_b(ctx, built)
+    exec_part_b(ctx, built, drv)
     exec_part_c(ctx, built, drv)
     ctx.cov["rule"] = ("(a) op sequences over the 12 client operations of jpeg_memory_mgr: random mixes with sizes at the slop / "
                        "MAX_ALLOC_CHUNK / 2^64 boundaries, virtual-array scripts with and without max_memory_to_use, SIZE_MAX-guard scripts, "
